@@ -92,6 +92,8 @@ ARG_POOL = (
     ArgDef("cls", N("Color")),
     ArgDef("value", L(NN(N("Int")))),
     ArgDef("node", N("Inp")),
+    ArgDef("x", N("Float")),
+    ArgDef("xs", L(N("Float"))),
 )
 
 BEHAVIOURS = ("sync", "default", "async", "awaitable", "nested", "gen",
@@ -521,8 +523,14 @@ class OpSpec:
 
 
 INT_VALUES = (0, 1, -1, 7, 42, -50)
+# (literal text, JSON payload, value the resolver receives): an Int literal /
+# integer payload is a legal Float input
+FLOAT_VALUES = (("0.0", 0.0, 0.0), ("1.5", 1.5, 1.5), ("-2.25", -2.25, -2.25),
+                ("1e3", 1000.0, 1000.0), ("3", 3, 3.0), ("-7", -7, -7.0),
+                ("2.5E-1", 0.25, 0.25))
 STR_VALUES = ("", "x", "hé", 'q"uo\\te', "two words", "line\nbreak",
-              "snow ☃ and 🎈 astral")
+              "snow ☃ and 🎈 astral", 'tri"""ple', "C:\\temp\\new",
+              "back\\slash")
 
 
 class OpGen:
@@ -569,13 +577,18 @@ class OpGen:
             if shape == 1:
                 # raw (unescaped) non-ASCII characters in the document
                 return json.dumps(v, ensure_ascii=False), v, v
-            if shape == 2 and v and v.strip() == v and '"' not in v \
-                    and "\\" not in v and "\n" not in v:
-                return '"""%s"""' % v, v, v  # block string form
+            if shape == 2 and v and v.strip() == v and "\n" not in v \
+                    and not v.endswith(('"', "\\")) \
+                    and '"' not in v.replace('"""', ""):
+                # block string form: backslashes are raw there, and the only
+                # escape is \"""
+                return '"""%s"""' % v.replace('"""', '\\"""'), v, v
             return json.dumps(v), v, v
         if base == "Boolean":
             v = bool(st.below(2, "bool"))
             return ("true" if v else "false"), v, v
+        if base == "Float":
+            return FLOAT_VALUES[st.below(len(FLOAT_VALUES), "float")]
         if base == "Color":
             name, internal = ENUM_VALUES[st.below(len(ENUM_VALUES), "enum")]
             return name, name, internal
